@@ -21,8 +21,9 @@ def reset_retained():
 
 
 def graph_repr(g):
-    return repr(([(k, list(d.items())) for k, d in g.nodes(data=True)],
-                 [(a, b, list(d.items())) for a, b, d in g.edges(data=True)]))
+    # atoms and bonds in iteration order (part of the result); attribute dicts compared as mappings
+    return repr(([(k, sorted(d.items(), key=lambda kv: str(kv[0]))) for k, d in g.nodes(data=True)],
+                 [(a, b, sorted(d.items(), key=lambda kv: str(kv[0]))) for a, b, d in g.edges(data=True)]))
 
 
 def _mols():
@@ -229,7 +230,8 @@ def run_item(fn):
         scribble(obj)
         return r
     except BaseException as ex:  # noqa
-        return f"EXC:{type(ex).__module__}.{type(ex).__name__}:{ex}"
+        import re as _re
+        return f"EXC:{type(ex).__module__}.{type(ex).__name__}:" + _re.sub(r"0x[0-9a-fA-F]+", "0x?", str(ex))
 
 
 def main():
